@@ -292,7 +292,12 @@ async fn handle_udp_relay_header(
             warn!("Fragmented UDP packets are not implemented");
             Ok(None)
         }
-        Err(e) => Err(Error::Socks(e)),
+        Err(e) => {
+            // Anyone can send anything to this port: a datagram that is not a relay
+            // request must not end the association of the client.
+            warn!("Ignoring malformed UDP relay request from {addr}: {e}");
+            Ok(None)
+        }
         Ok((dst, port, buf)) => {
             trace!("Parsed packet: dst {dst:?} port {port}");
             Ok(Some((dst, port, buf, addr.ip(), addr.port())))
